@@ -559,6 +559,10 @@ class JSON(Term):
             return self._get_list_sql(value, **kwargs)
         if isinstance(value, str):
             return self._get_str_sql(value, **kwargs)
+        if value is None:
+            return "null"
+        if isinstance(value, bool):
+            return "true" if value else "false"
         return str(value)
 
     def _get_dict_sql(self, value: dict, **kwargs: Any) -> str:
